@@ -185,6 +185,11 @@ Theorem C05w_loose_full : forall (h : nat) (q : node), (h <= 30)%nat -> (length 
 Proof. exact PathToIndexLoose_full. Qed.
 Print Assumptions C05w_loose_full.
 
+(** the height callers derive from the bitmap size of a full tree *)
+Theorem C05w_height_full : forall h : nat, (h <= 30)%nat -> Height (2 ^ (Z.of_nat h + 1) - 1) = Z.of_nat h.
+Proof. exact Height_full. Qed.
+Print Assumptions C05w_height_full.
+
 Example C05w_nonvacuous :
   IndexToPath 30 1234567 = Some 0x96b3a3fffffff /\ IndexToPath 30 1234568 = Some 0x96b3b3fffffff /\
   (0x96b3a3fffffff ?= 0x96b3b3fffffff) = (1234567 ?= 1234568) /\
